@@ -16,6 +16,7 @@ DECIDED = [
     "CANCEL-NODE: each cancellation record is enqueued on every path after allocation and released after being consumed; a record's task reaches the inner cancel (which invokes unconditionally) only through a test that it is still linked / scheduled there or was removed from the hand-over queue by the request (found D14, fixed); record helpers are followed (they run where their callers run)",
     "BALANCE: no function returns holding the mutex; the wait is entered with the mutex held",
     "CANCEL: the inner scheduler's cancel detaches from a list when linked, from the heap only when scheduled, then invokes once (shared with C07)",
+    "INNER (shared with C07): DETACH-FIRST, NEVER-EARLY, BATCH, SCHEDULE and HAS-TASKS of the single-threaded scheduler hold - the thread loop and the final release's `cancel remaining via clean-up` are built on them",
     "NOBLOCK: nothing that can invoke a task function (inner cancel/run-all/clean-up) and no client entry point runs while the hand-over mutex is held",
 ]
 NOT_DECIDED = ["which interleaving occurs; exactly-once as a run-time fact (only the schedule-independent protocol shape is decided)",
@@ -385,6 +386,13 @@ def analyse(ctx, replace=None, only=None):
     tsf = {f.name: f for f in P.functions_in("source/task_scheduler.c")}
     if R.require("aws_task_scheduler_cancel_task" in tsf, "inner scheduler's cancel_task not found"):
         C07.cancel_rules(R, tsf)
+    # ... and the rest of the inner scheduler's contract the thread loop and the final release are built on: a task is
+    # detached before it is invoked, nothing runs early, clean-up cancels until the scheduler reports no task, and that
+    # report does not depend on the task's time
+    if R.require(all(n_ in tsf for n_ in ("aws_task_run", "s_run_all", "aws_task_scheduler_has_tasks", "aws_task_scheduler_clean_up", "aws_task_scheduler_schedule_now", "aws_task_scheduler_schedule_future")), "inner scheduler functions not found in source/task_scheduler.c"):
+        C07.run_rules(R, tsf)
+        C07.schedule_rules(R, tsf)
+        C07.has_tasks_rules(R, tsf, batch=False)
 
 
 def launch_state(f):
